@@ -1731,6 +1731,33 @@ def b_dict_fromkeys(interp, args, kwargs):
     return d
 
 
+def b_operator_contains(interp, args, kwargs):
+    if len(args) != 2:
+        return NotImplemented
+    return compare(interp, ast.In(), args[1], args[0])
+
+
+def b_operator_not(interp, args, kwargs):
+    if len(args) != 1:
+        return NotImplemented
+    return K(not interp.truth(args[0]))
+
+
+def b_operator_is(neg):
+    def f(interp, args, kwargs):
+        if len(args) != 2:
+            return NotImplemented
+        return compare(interp, ast.IsNot() if neg else ast.Is(), args[0],
+                       args[1])
+    return f
+
+
+def b_operator_getitem(interp, args, kwargs):
+    if len(args) != 2:
+        return NotImplemented
+    return subscript(interp, args[0], args[1])
+
+
 def b_operator_bin(sym):
     node = {'or_': ast.BitOr, 'and_': ast.BitAnd, 'add': ast.Add,
             'sub': ast.Sub, 'mul': ast.Mult, 'xor': ast.BitXor}[sym]()
@@ -1779,6 +1806,10 @@ BUILTINS = {
     'operator.lt': b_operator('lt'), 'operator.le': b_operator('le'),
     'operator.eq': b_operator('eq'), 'operator.ne': b_operator('ne'),
     'operator.gt': b_operator('gt'), 'operator.ge': b_operator('ge'),
+    'operator.contains': b_operator_contains,
+    'operator.not_': b_operator_not, 'operator.is_': b_operator_is(False),
+    'operator.is_not': b_operator_is(True),
+    'operator.getitem': b_operator_getitem,
     'operator.or_': b_operator_bin('or_'),
     'operator.and_': b_operator_bin('and_'),
     'operator.add': b_operator_bin('add'),
